@@ -91,6 +91,14 @@ class Run:
             e = known.get(k)
             if e is not None and e.get("status") == "known":
                 kf.append((k, f, e)); matched.add(k)
+            elif f.detail.get("callers") and all(any(e2.get("status") == "known" and k2.startswith("%s/%s/%s/%s/" % (self.prop, f.rule, c, f.obj)) for k2, e2 in known.items()) for c in f.detail["callers"]):
+                # the finding sits in a file-local helper all of whose callers are listed for the same rule and object: the listed
+                # defect has moved into the helper, it is not a different one
+                e = next(e2 for k2, e2 in known.items() if k2.startswith("%s/%s/%s/%s/" % (self.prop, f.rule, f.detail["callers"][0], f.obj)))
+                kf.append((k, f, e))
+                for c in f.detail["callers"]:
+                    for k2 in known:
+                        if k2.startswith("%s/%s/%s/%s/" % (self.prop, f.rule, c, f.obj)): matched.add(k2)
             else:
                 new.append((k, f))
         stale = [k for k, e in known.items() if e.get("status") == "known" and k not in matched]
